@@ -1,6 +1,8 @@
 import PttVerif.Proofs.C18
 import PttVerif.Proofs.C18Ansi
 import PttVerif.Proofs.C18Misc
+import PttVerif.Proofs.C18Misc2
+import PttVerif.Proofs.C18Subject
 /-
 C18 — Byte-string primitives agree with their C counterparts and never crash.
 Property theorems only (helper lemmas live in Proofs/C18*.lean).  All statements are over arbitrary
@@ -145,7 +147,19 @@ theorem cstrstr_cases (h n : List Nat) (hn : n ≠ []) (h0 : ∀ x ∈ n, x ≠ 
 /-- observation O6 (not judged): for the empty needle C returns 0 always; Go returns −1 on an empty haystack. -/
 theorem cstrstr_empty_needle (h : List Nat) : cstrstr h [] = if cstr h = [] then -1 else 0 := cstrstr_empty' h
 
+/-! ### tokenizer -/
+
+/-- `CstrTokenR` never faults (empty slice, separator in the last position, no separator at all included) and
+cuts at the first NUL or the first separator byte, whichever comes first: `first` is everything before the cut,
+`theRest` everything behind the byte at the cut. -/
+theorem cstrTokenR_eq (s sep : List Nat) :
+    cstrTokenR s sep = .ok (s.take (stopLen s sep), s.drop (stopLen s sep + 1)) ∧
+    stopLen s sep = min (cstr s).length (s.takeWhile (fun x => !(sep.contains x))).length :=
+  ⟨cstrTokenR_eq' s sep, rfl⟩
+
 /-! ### non-vacuity -/
+example : cstrTokenR [97, 98, 32, 99, 0, 100] [32, 44] = .ok ([97, 98], [99, 0, 100]) := by rfl
+example : cstrTokenR [] [32] = .ok ([], []) := by rfl
 example : IsFirstOcc (cstr [97, 98, 99, 98, 99, 0, 98]) [98, 99] 1 := by
   refine ⟨by decide, by decide, ?_⟩
   intro j hj
@@ -461,5 +475,86 @@ theorem trimDBCS_no_split_partial (s : List Nat) (us : List DUnit) (hok : ∀ u 
   · intro c hc h
     rw [trimDBCS_spec' s _ c h, if_neg (by omega)]
     exact ⟨s, by simp [unitsBytes, DUnit.bytes]⟩
+
+/-! ### cmsys.StripNoneBig5 (works in place; the model returns the slice and the array afterwards) -/
+
+/-- totality and exact effect, for every input (no index is read or written outside the slice, the loop ends):
+the result is the filter `nb5` of the input, the array holds the result, then — only if there is room — one NUL,
+then the untouched rest of the original bytes. -/
+theorem stripNoneBig5_total (s : List Nat) :
+    stripNoneBig5 s = .ok (nb5 s,
+      nb5 s ++ (if (nb5 s).length < s.length then 0 :: s.drop ((nb5 s).length + 1) else [])) :=
+  stripNoneBig5_eq s
+
+/-- what survives is well-formed and nothing is invented: printable ASCII bytes and (lead ≥ 0x80, valid Big5
+trail byte) pairs — so no double-byte character is ever split, no control byte and no lone lead byte survives —,
+in the original order, all taken from before the first NUL. -/
+theorem stripNoneBig5_safe (s : List Nat) (hb : Bytes s) : Big5Safe (nb5 s) ∧ (nb5 s).Sublist (cstr s) :=
+  nb5_props s hb
+
+/-- nothing well-formed is lost: a well-formed string is returned unchanged … -/
+theorem stripNoneBig5_keeps_wellformed (s : List Nat) (h : Big5Safe s) : nb5 s = s := nb5_of_safe s h
+
+/-- … hence sanitizing twice equals sanitizing once. -/
+theorem stripNoneBig5_idem (s : List Nat) (hb : Bytes s) : nb5 (nb5 s) = nb5 s :=
+  nb5_of_safe _ (nb5_props s hb).1
+
+example : stripNoneBig5 [97, 1, 164, 64, 164, 32, 200, 0, 98] = .ok ([97, 164, 64, 32], [97, 164, 64, 32, 0, 32, 200, 0, 98]) := by rfl
+example : stripNoneBig5 [164] = .ok ([], [0]) := by rfl
+example : Big5Safe [97, 164, 64, 32] := .ascii 97 _ (by omega) (by omega) (.dbcs 164 64 _ (by omega) (by omega) (by decide) (.ascii 32 _ (by omega) (by omega) .nil))
+
+/-! ### cmbbs.SubjectEx
+
+`cmsys.StrcaseStartsWith` lower-cases with `bytes.ToLower`, which reads the Big5 title as UTF-8; the model mirrors
+that (see `lowerRune`). -/
+
+/-- totality: no slice or index faults (a matched prefix is never longer than what is left), the loop ends,
+and the returned title is a suffix of the title's C string — for every 65-byte array, with or without a NUL. -/
+theorem subjectEx_total (title : List Nat) :
+    ∃ ty pre r, subjectEx title = .ok (ty, r) ∧ cstr title = pre ++ r := by
+  unfold subjectEx
+  rw [cstrToBytes_eq']
+  obtain ⟨ty, pre, r, h1, h2, _⟩ := subjectLoop_spec ((cstr title).length + 1) (cstr title) SUBJECT_NORMAL (by omega)
+  exact ⟨ty, pre, r, h1, h2⟩
+
+/-- which bytes a matched prefix stands for: three ASCII bytes for `Re:` / `Fw:`; six or more bytes for the
+legacy forward tag — exactly `[`, four bytes ≥ 0x80, `]` unless the literal byte 0xEF occurs. -/
+theorem subjectEx_prefix_shape (p : List Nat) (n ty : Nat) (h : subjectStep p = some (n, ty)) :
+    n ≤ p.length ∧ 3 ≤ n ∧
+    ((∃ x y z r, n = 3 ∧ p = x :: y :: z :: r ∧ x < 128 ∧ y < 128 ∧ z < 128) ∨
+     (n = 6 ∧ (0xEF ∉ p → ∃ h1 h2 h3 h4 r, p = 91 :: h1 :: h2 :: h3 :: h4 :: 93 :: r ∧
+        128 ≤ h1 ∧ 128 ≤ h2 ∧ 128 ≤ h3 ∧ 128 ≤ h4))) := subjectStep_spec p n ty h
+
+/- FINDING (reported, see checks/c18.py): the full-strength statement
+     `subjectEx_no_split : subjectEx title = .ok (ty, r) → cstr title = pre ++ r → dbcsFold pre ≠ DBCS_LEADING`
+   ("the cut is never inside a double-byte character") is FALSE.  `bytes.ToLower` maps *every* byte that is not
+   valid UTF-8 to U+FFFD, and so does it map the valid three-byte sequence EF BF BD; the legacy tag `[轉錄]`
+   lower-cases to `[` U+FFFD×4 `]`, so `[` EF BF BD A4 A4 A4 `]` matches it although it is 8 bytes long, and the code
+   then cuts 6.  Negation with the witness (all bytes are valid Big5 lead/trail bytes): -/
+theorem subjectEx_split_witness :
+    subjectEx [91, 0xEF, 0xBF, 0xBD, 0xA4, 0xA4, 0xA4, 93, 120, 0] = .ok (SUBJECT_FORWARD, [0xA4, 93, 120]) ∧
+    dbcsFold [91, 0xEF, 0xBF, 0xBD, 0xA4, 0xA4] = DBCS_LEADING := by
+  refine ⟨by rfl, by decide +kernel⟩
+
+/-- what does hold (`…_partial`): when the byte 0xEF does not occur in the title, the cut is at a character
+boundary (and, with `subjectEx_total`, the result is the rest of the title from there). What is missing for the
+full statement is exactly the titles containing 0xEF (a Big5 lead byte of rarely used characters). -/
+theorem subjectEx_no_split_partial (title : List Nat) (hne : 0xEF ∉ cstr title) :
+    ∃ ty pre r, subjectEx title = .ok (ty, r) ∧ cstr title = pre ++ r ∧ dbcsFold pre ≠ DBCS_LEADING := by
+  unfold subjectEx
+  rw [cstrToBytes_eq']
+  obtain ⟨ty, pre, r, h1, h2, h3⟩ := subjectLoop_spec ((cstr title).length + 1) (cstr title) SUBJECT_NORMAL (by omega)
+  exact ⟨ty, pre, r, h1, h2, h3 hne DBCS_ASCII (by have := dbcs_consts; omega)⟩
+
+/-- observation O8 (not judged; the property's agreement clause does not list the subject parser): because of the
+same `bytes.ToLower`, any `[` + four non-UTF-8 bytes + `]` is taken for the legacy forward tag, e.g. `[閒聊] hello`
+(5B B6 A2 B2 E1 5D …) comes back as a forwarded article titled `hello`. -/
+theorem subjectEx_legacy_overmatch :
+    subjectEx [91, 0xB6, 0xA2, 0xB2, 0xE1, 93, 32, 104, 105, 0] = .ok (SUBJECT_FORWARD, [104, 105]) := by
+  rfl
+
+example : subjectEx [82, 69, 58, 32, 102, 119, 58, 91, 0xC2, 0xE0, 0xBF, 0xFD, 93, 32, 32, 120, 0] = .ok (SUBJECT_FORWARD, [32, 120]) := by
+  rfl
+example : subjectEx [82, 101, 0] = .ok (SUBJECT_NORMAL, [82, 101]) := by rfl
 
 end PttVerif.C18.Props
